@@ -12,6 +12,7 @@ import VyxalModel.Model.Num
 import VyxalModel.Model.NumTheory
 import VyxalModel.Model.Lists
 import VyxalModel.Model.Vectorise
+import VyxalModel.Model.Streams
 import VyxalModel.Gen.Codepage
 /-! Line protocol: `cmd<TAB>argument`; one answer line per request. -/
 open Vy
@@ -188,6 +189,32 @@ def vecCmd (arg : String) : String :=
      | none => "BADARG")
   | _ => "BADARG"
 
+def streamOut {σ : Type} (m : Str.M σ) (src : Nat → Int) (n : Nat) : String :=
+  showIntss (Str.take m src n) ++ " " ++ toString (Str.pulls m src n)
+
+/-- `stream <machine> <k> <n>` on the source 1, 2, 3, … -/
+def streamCmd (arg : String) : String :=
+  let src : Nat → Int := fun i => (i : Int) + 1
+  match arg.splitOn " " with
+  | [name, ks, ns] =>
+    let k := ks.toNat!
+    let n := ns.toNat!
+    (match name with
+     | "map" => streamOut (Str.mapT (· + 1)) src n
+     | "double" => streamOut (Str.mapT (· * 2)) src n
+     | "cumsum" => streamOut Str.cumsumT src n
+     | "deltas" => streamOut Str.deltasT src n
+     | "windows" => streamOut (Str.windowsT (k - 1)) src n
+     | "chunks" => streamOut (Str.chunksT k) src n
+     | "enumerate" => streamOut Str.enumerateT src n
+     | "prepend" => streamOut (Str.prependT 0) src n
+     | "slicefrom" => streamOut (Str.sliceFromT k) src n
+     | "prefixes" => streamOut Str.prefixesT src n
+     | "everyother" => streamOut Str.everyOtherT src n
+     | "filtermod" => streamOut (Str.filterT (fun x => x % (k : Int) == 0) k) src n
+     | _ => "BADMACHINE")
+  | _ => "BADARG"
+
 def answer (cmd arg : String) : String :=
   match cmd with
   | "tok" => showToks (tokenise (parseCps arg))
@@ -238,6 +265,7 @@ def answer (cmd arg : String) : String :=
   | "frombase27" => (match fromAlphabet Gen.base27 (parseCps arg) with
       | some n => toString n
       | none => "ERR")
+  | "stream" => streamCmd arg
   | "vec" => vecCmd arg
   | "nt" => ntCmd arg
   | "ls" => lsCmd arg
